@@ -344,7 +344,9 @@ def rule_sib_cb(ctx: Ctx) -> None:
     thens = [n for n in p.nodes(b) if isinstance(n, ast.Return) and n.value is not None and 'then(' in norm(n.value)]
     src = norm(thens[0].value.func.value) if thens and isinstance(thens[0].value, ast.Call) and isinstance(thens[0].value.func, ast.Attribute) else None
     defs = p.local_defs(b, src) if src else []
-    ctx.check(len(defs) == 1 and 'add_tensor(' in norm(defs[0]), 'SIB-CB', b, 'the returned future is chained to the one add_tensor returned', 'future source', f'the returned future derives from {[norm(d) for d in defs]}', b.node)
+    direct = bool(src) and src.endswith(')') and '.add_tensor(' in src and isinstance(thens[0].value.func.value, ast.Call) and isinstance(thens[0].value.func.value.func, ast.Attribute) \
+        and thens[0].value.func.value.func.attr == 'add_tensor'
+    ctx.check(direct or (len(defs) == 1 and 'add_tensor(' in norm(defs[0])), 'SIB-CB', b, 'the returned future is chained to the one add_tensor returned', 'future source', f'the returned future derives from {[norm(d) for d in defs]}', b.node)
 
 
 def rule_ts_flush(ctx: Ctx) -> None:
